@@ -1219,11 +1219,93 @@ def _chunks(items, n):
     return [items[i:i + n] for i in range(0, len(items), n)]
 
 
+# ---- long-run family: an addon that fails on EVERY message, for a long time ---------------------------------------------------
+LONGRUN_N = {"quick": [199, 200, 201, 256, 257, 1025], "thorough": [199, 200, 201, 256, 257, 1025, 4097, 10001]}
+
+
+class LongRunAddon:
+    """Two instances of this ONE class are registered: instance 0 raises from every hook on every datagram, instance 1 is healthy and
+    only records that it ran (addon objects sharing a class are what the addon API's own examples produce)."""
+
+    def __init__(self, k: int, log: list, raises: bool):
+        self.k, self.log, self.raises = k, log, raises
+
+    def handle_proxied_packet(self, session_manager, packet, session, region):
+        self.log.append(("pp", self.k))
+        if self.raises:
+            raise ValueError("addon 0 always fails")
+
+    def handle_lludp_message(self, session, region, message):
+        self.log.append(("lu", self.k))
+        if self.raises:
+            raise ValueError("addon 0 always fails")
+
+
+def longrun_case(n: int, d: str) -> List[Dict[str, str]]:
+    """n ordinary chat datagrams in direction d through a proxy with [always-failing instance, healthy instance] of one addon class, a
+    session and a region subscriber that always fail and one healthy subscriber each: EVERY datagram must be forwarded exactly once, with every
+    hook and subscriber invoked once, the failing ones included (a failure count must not change how later messages are treated)."""
+    log: list = []
+    addons = [LongRunAddon(0, log, True), LongRunAddon(1, log, False)]
+    w = U.fresh(1, addons, neighbour=False)
+    sends, exc = w.deliver(0, U.socks_wrap(U.use_circuit_code(0, 1), U.SIMS[0]), U.VIEWERS[0])
+    if exc is not None or len(sends) != 1:
+        raise RuntimeError(f"C07 longrun setup: UseCircuitCode not forwarded ({sends!r}, {exc!r})")
+    s = w.sessions[0]
+    region = w.region(0, 0)
+    s.main_region = region
+
+    def boom(message):
+        log.append(("sub-bad", 0))
+        raise ValueError("subscriber always fails")
+
+    for hp, handler in (("ss", s.message_handler), ("rs", region.message_handler)):
+        handler.register("*").subscribe(boom)
+        handler.register("*").subscribe((lambda hh: lambda message: log.append((hh, 1)) and None)(hp))
+    expected = sorted([("pp", 0), ("pp", 1), ("lu", 0), ("lu", 1), ("sub-bad", 0), ("sub-bad", 0), ("ss", 1), ("rs", 1)])
+    viols: List[Dict[str, str]] = []
+    for i in range(n):
+        del log[:]
+        if d == OUT:
+            data, src = U.socks_wrap(_msg("ordinary", OUT, 2 + i, 0, ()), U.SIMS[0]), U.VIEWERS[0]
+        else:
+            data, src = _msg("ordinary", IN, 1 + i, 0, ()), U.SIMS[0]
+        sends, exc = w.deliver(0, data, src)
+        site = f"longrun:{d}"
+        if exc is not None:
+            viols.append({"clause": "exception-escaped", "site": site, "detail": f"datagram {i + 1} of {n}: {exc!r}"})
+        if len(sends) != 1:
+            viols.append({"clause": "exactly-once-unless-claimed", "site": site,
+                          "detail": f"datagram {i + 1} of {n} (nobody claims anything): forwarded {len(sends)} times"})
+        if sorted(log) != expected:
+            missing = [x for x in expected if x not in log]
+            viols.append({"clause": "later-hooks-run", "site": site,
+                          "detail": f"datagram {i + 1} of {n}, after {i} datagrams on which addon 0 and one subscriber failed: hooks invoked {sorted(log)}, "
+                                    f"expected {expected}; missing {missing}"})
+        if viols:
+            break
+    return viols
+
+
+def _longrun_worker(case):
+    part = Part()
+    part.count("evaluations")
+    part.count("longrun_cases")
+    n, d = case
+    for v in longrun_case(n, d):
+        part.violation(v["clause"], v["site"], {"kind": "longrun", "case": [n, d]}, v["detail"])
+    part.mark_nontrivial(("longrun", n, d))
+    part.outcome(("longrun", d))
+    return part.dump()
+
+
 def run(run: Run):
     run.rule = ("for each of 14 messages: every single non-default hook behaviour, every pair of slots over the representative "
                 "behaviour list, (thorough) every one-slot-per-addon triple over the reduced list; each followed by a probe "
                 "datagram per direction; plus every op sequence of length <= 4 on a bare ProxiedCircuit x 8 message variants. "
-                "non-trivial = cases with >= 1 non-default behaviour / sequences of length >= 2")
+                "non-trivial = cases with >= 1 non-default behaviour / sequences of length >= 2; plus long-run family: n datagrams (n around 200, 256, 1024; "
+                "thorough to 10001) x direction through two instances of one addon class of which one fails in every hook on every datagram, with an always-failing "
+                "and a healthy subscriber per handler: every datagram forwarded once with every hook invoked")
     run.assumptions += [
         "hook behaviours are applied to the message under test only; for other datagrams hooks log and return None",
         "a truthy return from a MessageHandler subscriber means 'unsubscribe me' (library contract), not a claim",
@@ -1254,6 +1336,10 @@ def run(run: Run):
     hr = [(v, d, rel) for v in HR_VARIANTS for d in (OUT, IN) for rel in (0, 1)]
     for d in pmap(_hotreload_worker, _chunks(hr, 2), run.jobs, chunksize=1):
         run.merge(d)
+    lr = [(n, d) for n in LONGRUN_N[run.tier] for d in (OUT, IN)]
+    for d in pmap(_longrun_worker, lr, run.jobs, chunksize=1):
+        run.merge(d)
+    run.coverage_extra.update(longrun_cases=lr)
     run.coverage_extra.update(hotreload_cases=int(run.counters.get("hotreload_cases", 0)))
     run.coverage_extra.update(async_cases=int(run.counters.get("async_cases", 0)), hook_cases=int(run.counters.get("hook_cases", 0)), machine_cases=int(run.counters.get("machine_cases", 0)),
                               messages=len(MESSAGES), fault_bound="singles+pairs" + ("+triples(one per addon)" if run.tier == "thorough" else ""))
@@ -1270,6 +1356,8 @@ def replay(witness):
         return vs
     if kind == "hotreload":
         return hotreload_case(*witness["case"])[0]
+    if kind == "longrun":
+        return longrun_case(int(witness["case"][0]), witness["case"][1])
     if kind == "async":
         c = list(witness["case"])
         return async_case(*c)[0]
